@@ -446,7 +446,28 @@ hyb_len = Contract(
     ensures=lambda S, a, r, post: {"len": r == S.len(a.self._cache_dict), "len<=max_size": r <= a.self.max_size},
 )
 
-ALL += [hyb_expire, hyb_put, hyb_get, hyb_contains, hyb_len]
+
+
+def hyb_clear_ensures(S, a, r, post):
+    c1 = post.self
+    if not S.symbolic:
+        return {"everything is gone: values, access counts and computation durations": len(c1._cache_dict) == 0
+                and len(c1._access_counts) == 0 and len(c1._computation_durations) == 0}
+    out = {"no value, no access count and no computation duration remains (a later eviction scores only what is resident)":
+           S.and_(S.len(c1._cache_dict) == 0, S.len(c1._access_counts) == 0, S.len(c1._computation_durations) == 0,
+                  lambda: S.forall_key(TObj, lambda k: S.and_(S.not_(S.has(c1._cache_dict, k)), S.not_(S.has(c1._access_counts, k)),
+                                                               S.not_(S.has(c1._computation_durations, k))))),
+           "configuration unchanged": _hyb_frame(S, a.self, c1)}
+    for name, cl in hyb_wf(S, c1).items():
+        out[f"still well-formed: {name}"] = cl
+    return out
+
+
+hyb_clear = Contract(
+    f"{F}::HybridCache.clear", params={"self": HYB}, returns=TNone, modifies=("self",), pure=False,
+    requires=lambda S, a: hyb_wf(S, a.self), ensures=hyb_clear_ensures,
+)
+ALL += [hyb_expire, hyb_put, hyb_get, hyb_contains, hyb_len, hyb_clear]
 
 
 def _mk_hyb(ms, entries):
@@ -494,4 +515,5 @@ def proof_items():  # noqa: F811
         ProofItem(hyb_get, gen=_hyb_gen("get")),
         ProofItem(hyb_contains, gen=_hyb_gen("get")),
         ProofItem(hyb_len, gen=_hyb_gen("noarg")),
+        ProofItem(hyb_clear, gen=_hyb_gen("noarg")),
     ]
